@@ -233,3 +233,175 @@ Proof.
   destruct (Nat.ltb_spec u v), (Nat.ltb_spec v w), (Nat.ltb_spec u w);
     destruct (adjb g u v), (adjb g u w), (adjb g v w); simpl; try reflexivity; lia.
 Qed.
+
+(** * 4. Core decomposition, level L1: every admissible peeling sequence yields the core numbers *)
+
+Lemma upd_nil {A} i (x : A) : upd [] i x = [].
+Proof. unfold upd. destruct i; reflexivity. Qed.
+
+Lemma upd_cons_0 {A} (a : A) l x : upd (a :: l) 0 x = x :: l.
+Proof. reflexivity. Qed.
+
+Lemma upd_cons_S {A} (a : A) l i x : upd (a :: l) (S i) x = a :: upd l i x.
+Proof. reflexivity. Qed.
+
+Lemma upd_length {A} (l : list A) i x : length (upd l i x) = length l.
+Proof.
+  revert i; induction l as [|a t IH]; intros i.
+  - rewrite upd_nil. reflexivity.
+  - destruct i; [reflexivity|]. rewrite upd_cons_S. simpl. rewrite IH. reflexivity.
+Qed.
+
+Lemma nth_upd_same {A} (l : list A) i x d : i < length l -> nth i (upd l i x) d = x.
+Proof.
+  revert i; induction l as [|a t IH]; intros i H; simpl in H; [lia|].
+  destruct i; [reflexivity|]. rewrite upd_cons_S. simpl. apply IH. lia.
+Qed.
+
+Lemma nth_upd_other {A} (l : list A) i j x d : i <> j -> nth j (upd l i x) d = nth j l d.
+Proof.
+  revert i j; induction l as [|a t IH]; intros i j H.
+  - rewrite upd_nil. reflexivity.
+  - destruct i.
+    + destruct j; [contradiction|]. reflexivity.
+    + rewrite upd_cons_S. destruct j; [reflexivity|]. simpl. apply IH. lia.
+Qed.
+
+Lemma length_filter_le {A} (p q : A -> bool) (l : list A) :
+  (forall x, In x l -> p x = true -> q x = true) -> length (filter p l) <= length (filter q l).
+Proof.
+  induction l as [|a t IH]; intros H; simpl; [lia|].
+  assert (IH' : length (filter p t) <= length (filter q t)).
+  { apply IH. intros x Hx. apply H. right. exact Hx. }
+  destruct (p a) eqn:Ep.
+  - rewrite (H a (or_introl eq_refl) Ep). simpl. lia.
+  - destruct (q a); simpl; lia.
+Qed.
+
+Lemma deg_in_mono g (t a : list nat) v :
+  (forall w, In w t -> In w a) -> deg_in g t v <= deg_in g a v.
+Proof.
+  intros H. unfold deg_in. apply length_filter_le.
+  intros x _ Hx. apply memn_In. apply H. apply memn_In. exact Hx.
+Qed.
+
+Lemma in_core_mono g k k' v : k' <= k -> in_core g k v -> in_core g k' v.
+Proof.
+  intros Hk [s [Hv Hs]]. exists s. split; [exact Hv|].
+  intros u Hu. specialize (Hs u Hu). lia.
+Qed.
+
+Lemma deg_in_overflow g s v : length g <= v -> deg_in g s v = 0.
+Proof. intros H. unfold deg_in. rewrite row_overflow by exact H. reflexivity. Qed.
+
+Lemma peel_run_inv (g : graph) (choice : list nat) :
+  forall alive c labels out,
+  peel_run g choice alive c labels = Some out ->
+  (exists s, (forall v, In v alive -> In v s) /\ kcore_set g c s) ->
+  (forall k t, c < k -> kcore_set g k t -> forall v, In v t -> In v alive) ->
+  length out = length labels /\
+  forall v, v < length labels ->
+    (In v alive -> core_number g v (nthn out v)) /\
+    (~ In v alive -> nthn out v = nthn labels v).
+Proof.
+  induction choice as [|v0 rest IH]; intros alive c labels out Hrun Ha Hb.
+  - simpl in Hrun. destruct alive as [|x xs]; [|discriminate].
+    injection Hrun as <-. split; [reflexivity|]. intros v _. split; [intros []|reflexivity].
+  - simpl in Hrun.
+    destruct (memn v0 alive && forallb (fun u => deg_in g alive v0 <=? deg_in g alive u) alive) eqn:Eg;
+      [|discriminate].
+    apply andb_true_iff in Eg. destruct Eg as [Hmem Hmin].
+    apply memn_In in Hmem. rewrite forallb_forall in Hmin.
+    set (d := deg_in g alive v0) in *.
+    set (c' := Nat.max c d) in *.
+    (* a witness for c' containing the whole current alive set *)
+    assert (Ha' : exists s, (forall v, In v alive -> In v s) /\ kcore_set g c' s).
+    { destruct (Nat.le_gt_cases d c) as [L|L].
+      - replace c' with c by (unfold c'; lia). exact Ha.
+      - replace c' with d by (unfold c'; lia). exists alive. split; [auto|].
+        intros u Hu. specialize (Hmin u Hu). apply Nat.leb_le in Hmin. exact Hmin. }
+    (* nothing outside alive (and not v0 either) lies in a k-core witness for k > c' *)
+    assert (Hb0 : forall k t, c' < k -> kcore_set g k t -> forall v, In v t -> In v alive).
+    { intros k t Hk Ht v Hv. apply (Hb k t); auto. unfold c' in Hk. lia. }
+    assert (Hv0 : forall k t, c' < k -> kcore_set g k t -> ~ In v0 t).
+    { intros k t Hk Ht Hin.
+      pose proof (Ht v0 Hin) as H1.
+      pose proof (deg_in_mono g t alive v0 (Hb0 k t Hk Ht)) as H2.
+      fold d in H2. unfold c' in Hk. lia. }
+    specialize (IH (remove Nat.eq_dec v0 alive) c' (upd labels v0 c') out Hrun).
+    destruct IH as [Hlen Hout].
+    { destruct Ha' as [s [Hs1 Hs2]]. exists s. split; [|exact Hs2].
+      intros v Hv. apply in_remove in Hv. apply Hs1. tauto. }
+    { intros k t Hk Ht v Hv. apply in_in_remove.
+      - intros E. subst v. exact (Hv0 k t Hk Ht Hv).
+      - exact (Hb0 k t Hk Ht v Hv). }
+    rewrite upd_length in Hlen, Hout. split; [exact Hlen|].
+    intros v Hv. specialize (Hout v Hv). destruct Hout as [Hin Hnot]. split.
+    + intros Hal. destruct (Nat.eq_dec v v0) as [E|Ne].
+      * subst v. rewrite Hnot by (apply remove_In).
+        unfold nthn. rewrite nth_upd_same by exact Hv. split.
+        -- destruct Ha' as [s [Hs1 Hs2]]. exists s. split; [apply Hs1; exact Hal|exact Hs2].
+        -- intros k' [t [Ht1 Ht2]].
+           destruct (Nat.le_gt_cases k' c') as [L|L]; [exact L|].
+           exfalso. exact (Hv0 k' t L Ht2 Ht1).
+      * apply Hin. apply in_in_remove; auto.
+    + intros Hal. rewrite Hnot.
+      * unfold nthn. apply nth_upd_other. intros E. subst v. contradiction.
+      * intros Hr. apply in_remove in Hr. tauto.
+Qed.
+
+Theorem peel_is_core_number (g : graph) (choice labels : list nat) :
+  peel g choice = Some labels ->
+  length labels = length g /\ forall v, v < length g -> core_number g v (nthn labels v).
+Proof.
+  intros Hrun. unfold peel in Hrun.
+  apply peel_run_inv in Hrun.
+  - destruct Hrun as [Hlen Hout]. rewrite repeat_length in Hlen, Hout. split; [exact Hlen|].
+    intros v Hv. apply (Hout v Hv). apply in_seq. lia.
+  - exists (seq 0 (length g)). split; [auto|]. intros u _. lia.
+  - intros k t Hk Ht v Hv. apply in_seq.
+    destruct (Nat.lt_ge_cases v (length g)) as [L|L]; [lia|].
+    specialize (Ht v Hv). rewrite deg_in_overflow in Ht by exact L. lia.
+Qed.
+
+(** An admissible sequence always exists and uses every node exactly once (so the theorem above is
+    not vacuous and the labels are total): stated for the run itself. *)
+Lemma core_number_unique g v k1 k2 : core_number g v k1 -> core_number g v k2 -> k1 = k2.
+Proof.
+  intros [A1 B1] [A2 B2]. apply Nat.le_antisymm; auto.
+Qed.
+
+(** * 5. Clustering coefficient *)
+
+Lemma sym_degrees_spec g :
+  sym_degrees g = map (degree_spec (adjb g) (length g)) (seq 0 (length g)).
+Proof. unfold sym_degrees, sym_rows. rewrite map_map. reflexivity. Qed.
+
+Lemma sum_dd1_spec g : sum_dd1 (sym_degrees g) = triples_spec2 (adjb g) (length g).
+Proof.
+  rewrite sym_degrees_spec. unfold sum_dd1, triples_spec2.
+  rewrite filter_map_comm, map_map, sumn_map_filter.
+  apply sumn_map_ext_in. intros v _. cbv zeta.
+  destruct (1 <? degree_spec (adjb g) (length g) v); simpl; lia.
+Qed.
+
+Lemma qnat_zero n : (qnat n == 0)%Q -> n = 0.
+Proof. unfold qnat, Qeq. simpl. lia. Qed.
+
+Theorem clustering_coefficient_def (g : graph) :
+  match clustering_coefficient g with
+  | Some q => triples_spec2 (adjb g) (length g) <> 0 /\ (q == clustering_spec (adjb g) (length g))%Q
+  | None => triples_spec2 (adjb g) (length g) = 0
+  end.
+Proof.
+  unfold clustering_coefficient, n_edge_pairs, clustering_spec.
+  rewrite sum_dd1_spec, count_triangles_exact.
+  set (P := triples_spec2 (adjb g) (length g)).
+  destruct (Qeq_bool (qnat P / 2) 0) eqn:E.
+  - apply Qeq_bool_iff in E. apply qnat_zero.
+    assert (H : (qnat P == (qnat P / 2) * 2)%Q) by field.
+    rewrite H, E. reflexivity.
+  - split.
+    + intros HP. rewrite HP in E. vm_compute in E. discriminate.
+    + apply Qred_correct.
+Qed.
